@@ -1,5 +1,9 @@
 package fstxn
 
+import (
+	"github.com/mit-pdos/go-journal/common"
+)
+
 // putInodes may free an inode so must be done before commit
 func (op *FsTxn) preCommit() {
 	op.Atxn.PreCommit()
@@ -10,9 +14,25 @@ func (op *FsTxn) postCommit() {
 	op.Atxn.PostCommit()
 }
 
+// The cached copy of an inode this transaction wrote carries changes that
+// did not reach the disk; drop it so that the next user reloads the inode
+// (and rebuilds its name cache) from the committed state.
+func (op *FsTxn) invalidateInodes() {
+	for _, ip := range op.inodes {
+		b := op.Atxn.Op.ReadBuf(op.Fs.Super.Inum2Addr(ip.Inum), common.INODESZ*8)
+		if b.IsDirty() {
+			cslot := op.Fs.Icache.LookupSlot(uint64(ip.Inum))
+			cslot.Obj = nil
+		}
+	}
+}
+
 func (op *FsTxn) commitWait(wait bool) bool {
 	op.preCommit()
 	ok := op.Atxn.Op.CommitWait(wait)
+	if !ok {
+		op.invalidateInodes()
+	}
 	op.postCommit()
 	return ok
 }
@@ -44,6 +64,7 @@ func (op *FsTxn) CommitFh() bool {
 // An aborted transaction may free an inode, which results in dirty
 // buffers that need to be written to log. So, call commit.
 func (op *FsTxn) Abort() bool {
+	op.invalidateInodes()
 	op.releaseInodes()
 	op.Atxn.PostAbort()
 	return true
